@@ -99,7 +99,7 @@ pub fn set_mathml(mathml_str: String) -> Result<String> {
         static ref MATHJAX_V3: Regex = Regex::new(r#"class *= *['"]data-mjx-.*?['"]"#).unwrap();
         static ref NAMESPACE_DECL: Regex = Regex::new(r#"xmlns:[[:alpha:]]+"#).unwrap();     // very limited namespace prefix match
         static ref PREFIX: Regex = Regex::new(r#"(</?)[[:alpha:]]+:"#).unwrap();     // very limited namespace prefix match
-        static ref HTML_ENTITIES: Regex = Regex::new(r#"&([a-zA-Z]+?);"#).unwrap();
+        static ref HTML_ENTITIES: Regex = Regex::new(r#"&([a-zA-Z0-9]+?);"#).unwrap();
     }
 
     NAVIGATION_STATE.with(|nav_stack| {
